@@ -103,6 +103,50 @@ def describe_local(B, l, depth=0):
     return '_'
 
 
+def describe_def(B, l, depth=0):
+    """description of the *definition* of a local (ignores the local's own debug name)"""
+    ds = B.whole_defs(l)
+    if len(ds) != 1:
+        return None
+    d = ds[0]
+    if d[0] == 'call':
+        t = d[3]
+        c = (t.get('callee') or callee_of(t) or '?')
+        return '%s(%s)' % (c.split('::')[-1], ','.join(describe_operand(B, a, depth + 1) for a in t['args'][:3]))
+    rv = d[4]
+    k = rv['k']
+    if k in ('use', 'cast'):
+        o = rv['op']
+        if o['k'] == 'const':
+            return describe_operand(B, o)
+        p = op_place(o)
+        if p is not None and not p['p'] and not B.local_name(p['l']):
+            return describe_def(B, p['l'], depth + 1) or describe_operand(B, o, depth + 1)
+        return describe_operand(B, o, depth + 1)
+    if k == 'binop':
+        return '%s(%s,%s)' % (rv['op'].replace('WithOverflow', ''), describe_operand(B, rv['l'], depth + 1), describe_operand(B, rv['r'], depth + 1))
+    if k in ('ref', 'copyforderef'):
+        return describe_place(B, rv['place'], depth + 1)
+    return describe_local(B, l, depth) if not B.local_name(l) else None
+
+
+def excuse_applies(B, entry):
+    """(reason, problem): an excuse may demand that named locals still have the definitions its invariant relies on"""
+    if isinstance(entry, str):
+        return entry, None
+    req = entry.get('requires', {})
+    for name, want in req.items():
+        ls = [i for i in range(len(B.locals)) if B.local_name(i) == name]
+        got = None
+        for l in ls:
+            got = describe_def(B, l)
+            if got == want:
+                break
+        if got != want:
+            return entry['reason'], 'the excuse requires `%s` to be defined as %s but it is %s' % (name, want, got)
+    return entry['reason'], None
+
+
 class Site:
     __slots__ = ('fn', 'bb', 'kind', 'desc', 'key', 'loc', 'from_macro')
 
@@ -538,9 +582,9 @@ def no_panic_under_guard(rep, F, A, write_only=False):
         if why:
             o = rep.add('NO-PANIC-UNDER-GUARD', key, desc, True, s.loc)
             o.witness = ['discharged: ' + why]
-        elif s.key in exc:
+        elif s.key in exc and excuse_applies(B, exc[s.key])[1] is None:
             used_exc.add(s.key)
-            rep.excuse('NO-PANIC-UNDER-GUARD', key, desc, exc[s.key], s.loc)
+            rep.excuse('NO-PANIC-UNDER-GUARD', key, desc, excuse_applies(B, exc[s.key])[0], s.loc)
         else:
             rep.add('NO-PANIC-UNDER-GUARD', key, desc, False, s.loc,
                     '%s: `%s` can panic while %s is held (taken in %s) and no dominating guard idiom or table invariant discharges it' % (s.fn, s.desc, under, owner))
@@ -659,3 +703,50 @@ def unit(rep, F, cg, only_files=None):
                         name, base, '; '.join(sorted(set(bad)))))
     rep.floor('UNIT', 'string slicing sites', n, 5)
     return n
+
+
+def arith(rep, F, cg, impl_self='sys::fs::memfs::file::MemfsFile'):
+    """every potential panic site and every signed->unsigned conversion of a caller-controlled value in the handle type"""
+    rep.rule('ARITH', 'in every method of MemfsFile each potential panic site (overflow Assert, slice Index, copy_from_slice ...) is discharged by a '
+             'dominating ordering test on the same operands or excused by one table line whose structural side conditions still hold, and no '
+             'signed value derived from a parameter is cast to an unsigned type without a dominating sign test')
+    exc = _excuses()
+    n = 0
+    for name in cg.names():
+        b = F.bodies[name]
+        if b.get('impl_self') != impl_self:
+            continue
+        B = cg.body(name)
+        for s in panic_sites(B):
+            if s.kind == 'ptrcheck':
+                continue
+            n += 1
+            t = B.term(s.bb)
+            why = discharge(B, s, t)
+            key = 'arith:' + s.key
+            desc = 'potential panic `%s` in %s (a read/seek/write handle method)' % (s.desc, name)
+            if why:
+                o = rep.add('ARITH', key, desc, True, s.loc)
+                o.witness = ['discharged: ' + why]
+            elif s.key in exc and excuse_applies(B, exc[s.key])[1] is None:
+                rep.excuse('ARITH', key, desc, excuse_applies(B, exc[s.key])[0], s.loc)
+            else:
+                prob = excuse_applies(B, exc[s.key])[1] if s.key in exc else None
+                rep.add('ARITH', key, desc, False, s.loc,
+                        '%s: `%s` can panic for some position / buffer / offset and nothing dominating rules it out%s' % (name, s.desc, ' (' + prob + ')' if prob else ''))
+        for i, j, st in B.assigns():
+            rv = st['rv']
+            if rv['k'] == 'cast' and rv['cast'] == 'IntToInt' and rv['from'].startswith('i') and rv['to'].startswith('u'):
+                n += 1
+                roots = B.op_origins(rv['op'])
+                from_param = any(r[0] == 'arg' for r in roots)
+                d = describe_operand(B, rv['op'])
+                ok = not from_param
+                if from_param:
+                    facts = known_facts(B, i)
+                    for desc_, truth in facts:
+                        if re.match(r'^(Ge|Gt|Lt|Le)\(', desc_) and ',0)' in desc_:
+                            ok = True
+                rep.add('ARITH', 'arith:%s|cast|%s' % (name, d), 'signed->unsigned cast of `%s` in %s is guarded by a sign test' % (d, name), ok, B.loc(i),
+                        '' if ok else '%s casts the caller-controlled signed value `%s` to %s without a sign test: a negative offset wraps to a huge position' % (name, d, rv['to']))
+    rep.floor('ARITH', 'handle arithmetic sites', n, 4)
